@@ -170,7 +170,7 @@ func writeDesc(w io.Writer, desc string, indent int, withDesc bool) (err error) 
 	// backslash has to be written escaped to be read back as is. A triple
 	// quote inside a block string would end the string early.
 	desc = strings.ReplaceAll(desc, `\`, `\\`)
-	desc = strings.ReplaceAll(desc, `"""`, `\"""`)
+	desc = escapeQuoteRuns(desc)
 	if strings.ContainsAny(desc, "\n\"") {
 		if _, err = w.Write([]byte(shift)); err == nil {
 			shift = "\n" + shift
@@ -195,6 +195,35 @@ func writeDesc(w io.Writer, desc string, indent int, withDesc bool) (err error) 
 		_, err = w.Write([]byte(shift))
 	}
 	return
+}
+
+// escapeQuoteRuns escapes every quote of three or more quotes in a row. Three
+// quotes end a block string. Escaping only the first of them is not enough
+// with four or more, the reader takes \" for a quote and then finds three
+// more.
+func escapeQuoteRuns(s string) string {
+	if !strings.Contains(s, `"""`) {
+		return s
+	}
+	var b strings.Builder
+	for i := 0; i < len(s); {
+		if s[i] != '"' {
+			b.WriteByte(s[i])
+			i++
+			continue
+		}
+		n := 0
+		for i+n < len(s) && s[i+n] == '"' {
+			n++
+		}
+		if 3 <= n {
+			b.WriteString(strings.Repeat(`\"`, n))
+		} else {
+			b.WriteString(s[i : i+n])
+		}
+		i += n
+	}
+	return b.String()
 }
 
 // Ideally a default value should be specified but since the only current use
